@@ -17,53 +17,79 @@ open MVoro MVoro.GeomHelpers
 set_option linter.unusedSimpArgs false
 set_option linter.unusedVariables false
 
-/-! ### generated = reference -/
+/-! ### generated = reference
+
+Proved semantically (case split on the sign test, then componentwise field arithmetic), so that renamed locals, early
+returns, extracted helpers and local bindings in the source keep checking. -/
+
+theorem lit25 : (Scalar.lit 25 2 : ℝ) = 1 / 4 := by simp [Scalar.lit, instScalarReal]; norm_num
+
+/-- componentwise comparison of the results of an integral step -/
+macro "acc_tail" : tactic =>
+  `(tactic| (
+    simp only [Id.run, bind, pure, gen_signedVolumeTet_eq, gen_signedAreaTri_eq, lit25, N, slt_iff]
+    try split_ifs
+    all_goals first
+      | rfl
+      | (simp only [VolAcc.mk.injEq, FaceAcc.mk.injEq, FaceNAcc.mk.injEq, VolOnly.mk.injEq, AreaOnly.mk.injEq, Prod.mk.injEq]
+         refine ?_
+         repeat' constructor
+         all_goals first
+           | rfl
+           | ring
+           | (apply V3.ext' <;> simp only [add_x, add_y, add_z, smul_x, smul_y, smul_z, Nat.cast_ofNat, Nat.cast_one, Nat.cast_zero] <;>
+                first | rfl | ring | (field_simp) | (field_simp; ring)))))
 
 theorem gen_volCentroidCollect_eq (a : VolAcc ℝ) (v0 v1 v2 g : V3 ℝ) :
     Gen.volCentroidCollect a v0 v1 v2 g = Ref.volCollect a v0 v1 v2 g := by
-  simp only [Gen.volCentroidCollect, Ref.volCollect, Id.run, bind, pure, gen_signedVolumeTet_eq]
+  simp only [Gen.volCentroidCollect, Ref.volCollect]; acc_tail
 
 theorem gen_volCentroidFinalize_eq (a : VolAcc ℝ) : Gen.volCentroidFinalize a = Ref.volFinalize a := by
-  simp only [Gen.volCentroidFinalize, Ref.volFinalize, Id.run, bind, pure]
-  have : (Scalar.lit 25 2 : ℝ) = (N ℝ 1) / (N ℝ 4) := by simp [Scalar.lit, instScalarReal, N]; norm_num
-  rw [this]
+  simp only [Gen.volCentroidFinalize, Ref.volFinalize]; acc_tail
 
 theorem gen_volOnlyCollect_eq (a : VolOnly ℝ) (v0 v1 v2 g : V3 ℝ) :
     (Gen.volOnlyCollect a v0 v1 v2 g).volume = (Ref.volCollect ⟨a.volume, ⟨0, 0, 0⟩⟩ v0 v1 v2 g).volume := by
-  simp only [Gen.volOnlyCollect, Ref.volCollect, Id.run, bind, pure, gen_signedVolumeTet_eq]
+  simp only [Gen.volOnlyCollect, Ref.volCollect]; acc_tail
 
-theorem gen_volOnlyFinalize_eq (a : VolOnly ℝ) : Gen.volOnlyFinalize a = a := rfl
+theorem gen_volOnlyFinalize_eq (a : VolOnly ℝ) : Gen.volOnlyFinalize a = a := by
+  simp only [Gen.volOnlyFinalize]; acc_tail
 
 theorem gen_areaCentroidCollect_eq (a : FaceAcc ℝ) (v0 v1 v2 g : V3 ℝ) :
     ((Gen.areaCentroidCollect a v0 v1 v2 g).area, (Gen.areaCentroidCollect a v0 v1 v2 g).centroid)
       = Ref.faceCollect a.area a.centroid v0 v1 v2 g := by
-  simp only [Gen.areaCentroidCollect, Ref.faceCollect, Id.run, bind, pure, gen_signedAreaTri_eq]
+  simp only [Gen.areaCentroidCollect, Ref.faceCollect]; acc_tail
 
 theorem gen_areaCentroidFinalize_eq (a : FaceAcc ℝ) :
     Gen.areaCentroidFinalize a = ⟨a.area, V3.smul (Ref.faceNorm a.area) a.centroid⟩ := by
-  simp only [Gen.areaCentroidFinalize, Ref.faceNorm, Id.run, bind, pure]
+  simp only [Gen.areaCentroidFinalize, Ref.faceNorm]; acc_tail
 
 theorem gen_areaOnlyCollect_eq (a : AreaOnly ℝ) (v0 v1 v2 g : V3 ℝ) :
     (Gen.areaOnlyCollect a v0 v1 v2 g).area = (Ref.faceCollect a.area ⟨0, 0, 0⟩ v0 v1 v2 g).1 := by
-  simp only [Gen.areaOnlyCollect, Ref.faceCollect, Id.run, bind, pure, gen_signedAreaTri_eq]
+  simp only [Gen.areaOnlyCollect, Ref.faceCollect]; acc_tail
 
-theorem gen_areaOnlyFinalize_eq (a : AreaOnly ℝ) : Gen.areaOnlyFinalize a = a := rfl
+theorem gen_areaOnlyFinalize_eq (a : AreaOnly ℝ) : Gen.areaOnlyFinalize a = a := by
+  simp only [Gen.areaOnlyFinalize]; acc_tail
 
 /-- the face integral behind `VoronoiFace` accumulates exactly like `AreaCentroidIntegral` and keeps its normal -/
 theorem gen_voronoiFaceCollect_eq (a : FaceNAcc ℝ) (v0 v1 v2 g : V3 ℝ) :
     ((Gen.voronoiFaceCollect a v0 v1 v2 g).area, (Gen.voronoiFaceCollect a v0 v1 v2 g).centroid)
       = Ref.faceCollect a.area a.centroid v0 v1 v2 g ∧ (Gen.voronoiFaceCollect a v0 v1 v2 g).normal = a.normal := by
-  simp only [Gen.voronoiFaceCollect, Ref.faceCollect, Id.run, bind, pure, gen_signedAreaTri_eq, and_self]
+  constructor
+  · simp only [Gen.voronoiFaceCollect, Ref.faceCollect]; acc_tail
+  · simp only [Gen.voronoiFaceCollect]; acc_tail
 
 theorem gen_voronoiFaceFinalize_eq (a : FaceNAcc ℝ) :
     Gen.voronoiFaceFinalize a = ⟨a.area, V3.smul (Ref.faceNorm a.area) a.centroid, a.normal⟩ := by
-  simp only [Gen.voronoiFaceFinalize, Ref.faceNorm, Id.run, bind, pure]
+  simp only [Gen.voronoiFaceFinalize, Ref.faceNorm]; acc_tail
 
 /-- **C13**: the stored face values and `AreaCentroidIntegral` are the same function of the triangle stream -/
 theorem voronoiFace_eq_areaCentroid (a : FaceNAcc ℝ) (v0 v1 v2 g : V3 ℝ) :
     (Gen.voronoiFaceCollect a v0 v1 v2 g).area = (Gen.areaCentroidCollect ⟨a.area, a.centroid⟩ v0 v1 v2 g).area ∧
     (Gen.voronoiFaceCollect a v0 v1 v2 g).centroid = (Gen.areaCentroidCollect ⟨a.area, a.centroid⟩ v0 v1 v2 g).centroid := by
-  simp only [Gen.voronoiFaceCollect, Gen.areaCentroidCollect, Id.run, bind, pure, and_self]
+  have h1 := (gen_voronoiFaceCollect_eq a v0 v1 v2 g).1
+  have h2 := gen_areaCentroidCollect_eq ⟨a.area, a.centroid⟩ v0 v1 v2 g
+  rw [← h2] at h1
+  exact ⟨(Prod.mk.inj h1).1, (Prod.mk.inj h1).2⟩
 
 /-! ### meaning of the references -/
 
